@@ -567,6 +567,18 @@ class LapackContract:
             return s
         return u, s, vt
 
+    def add_orthonormal_basis(self, u):
+        """contract for svd_qn.add_orthonormal_basis (random vectors + QR): n extra orthonormal columns orthogonal to u"""
+        if not _is_symarr(u):
+            return _orig_lapack["add_orthonormal_basis"](u)
+        m, n = u.shape
+        assert 2 * n < m
+        q = self._fresh("Qc", (m, n))
+        self._assume_eq(self._H(q) @ q, np.eye(n, dtype=object), "completion: QhQ=I")
+        self._assume_eq(self._H(np.asarray(u, dtype=object)) @ q, np.zeros((n, n), dtype=object), "completion: UhQ=0")
+        self.calls.append(("add_orthonormal_basis", u.shape))
+        return S.symview(np.concatenate([np.asarray(u, dtype=object), q], axis=1))
+
     def eigh(self, a, *args, **kw):
         if not _is_symarr(a):
             return _orig_lapack["eigh"](a, *args, **kw)
@@ -619,10 +631,16 @@ def lapack_contract(ctx, modules=("renormalizer.mps.svd_qn",), cplx=False):
         _orig_lapack.update(qr=scipy.linalg.qr, rq=scipy.linalg.rq, svd=scipy.linalg.svd, eigh=scipy.linalg.eigh)
     c = LapackContract(ctx, cplx)
     saved = []
+    aob = None
     for mn in modules:
         mod = __import__(mn, fromlist=["x"])
         saved.append((mod, mod.__dict__.get("scipy")))
         mod.scipy = ScipyProxy(sys.modules["scipy"], c)
+        if mn == "renormalizer.mps.svd_qn":
+            if "add_orthonormal_basis" not in _orig_lapack:
+                _orig_lapack["add_orthonormal_basis"] = mod.add_orthonormal_basis
+            aob = mod
+            mod.add_orthonormal_basis = c.add_orthonormal_basis
 
     def undo():
         for mod, old in saved:
@@ -630,4 +648,6 @@ def lapack_contract(ctx, modules=("renormalizer.mps.svd_qn",), cplx=False):
                 mod.__dict__.pop("scipy", None)
             else:
                 mod.scipy = old
+        if aob is not None:
+            aob.add_orthonormal_basis = _orig_lapack["add_orthonormal_basis"]
     return c, undo
